@@ -604,3 +604,145 @@ func H_C01_PackedFloat64() {
 	}
 	verifReach("end")
 }
+
+// ---- long packed varint lists: the payload crosses the 1-byte / 2-byte length-prefix boundary (127/128) ----
+//
+// All elements are taken from one size class (k bytes each), so the payload is k*n on every path and the list
+// needs no per-element case split; n is 128/k or 128/k+1 (k = 10: 120 and 130 bytes; k = 5: 125 and 130 bytes).
+
+func c01LongN(k int) int {
+	n := nondetInt("n")
+	verifAssume(n == 128/k || n == 128/k+1)
+	return verifConcretize(n)
+}
+
+func H_C01_PackedLong_Int64() {
+	tag := c01Tag()
+	n := c01LongN(10)
+	vs := make([]int64, n)
+	for i := range vs {
+		vs[i] = nondetI64N("v", i)
+		verifAssume(vs[i] < 0) // ten bytes
+	}
+	buf := c01PackedBuf(tag, n, 10*n)
+	NewEncoder(buf).EncodePackedInt64(tag, vs)
+	d := c01Decoder(buf)
+	c01PackedKey(d, tag, n)
+	got, err := d.DecodePackedInt64()
+	verifAssert3(err == nil, len(got) == n, d.Offset() == len(buf), "count and cursor")
+	for i := 0; i < n && i < len(got); i++ {
+		verifAssert(got[i] == vs[i], "element")
+	}
+	verifReach("end")
+}
+
+func H_C01_PackedLong_Int32() {
+	tag := c01Tag()
+	n := c01LongN(10)
+	vs := make([]int32, n)
+	for i := range vs {
+		vs[i] = nondetI32N("v", i)
+		verifAssume(vs[i] < 0) // sign-extended: ten bytes
+	}
+	buf := c01PackedBuf(tag, n, 10*n)
+	NewEncoder(buf).EncodePackedInt32(tag, vs)
+	d := c01Decoder(buf)
+	c01PackedKey(d, tag, n)
+	got, err := d.DecodePackedInt32()
+	verifAssert3(err == nil, len(got) == n, d.Offset() == len(buf), "count and cursor")
+	for i := 0; i < n && i < len(got); i++ {
+		verifAssert(got[i] == vs[i], "element")
+	}
+	verifReach("end")
+}
+
+func H_C01_PackedLong_UInt64() {
+	tag := c01Tag()
+	n := c01LongN(10)
+	vs := make([]uint64, n)
+	for i := range vs {
+		vs[i] = nondetU64N("v", i)
+		verifAssume(vs[i] >= 1<<63)
+	}
+	buf := c01PackedBuf(tag, n, 10*n)
+	NewEncoder(buf).EncodePackedUInt64(tag, vs)
+	d := c01Decoder(buf)
+	c01PackedKey(d, tag, n)
+	got, err := d.DecodePackedUint64()
+	verifAssert3(err == nil, len(got) == n, d.Offset() == len(buf), "count and cursor")
+	for i := 0; i < n && i < len(got); i++ {
+		verifAssert(got[i] == vs[i], "element")
+	}
+	verifReach("end")
+}
+
+func H_C01_PackedLong_UInt32() {
+	tag := c01Tag()
+	n := c01LongN(5)
+	vs := make([]uint32, n)
+	for i := range vs {
+		vs[i] = nondetU32N("v", i)
+		verifAssume(vs[i] >= 1<<28) // five bytes
+		verifAssume(verifConcretize(SizeOfVarint(uint64(vs[i]))) == 5)
+	}
+	buf := c01PackedBuf(tag, n, 5*n)
+	NewEncoder(buf).EncodePackedUInt32(tag, vs)
+	d := c01Decoder(buf)
+	c01PackedKey(d, tag, n)
+	got, err := d.DecodePackedUint32()
+	verifAssert3(err == nil, len(got) == n, d.Offset() == len(buf), "count and cursor")
+	for i := 0; i < n && i < len(got); i++ {
+		verifAssert(got[i] == vs[i], "element")
+	}
+	verifReach("end")
+}
+
+func H_C01_PackedLong_SInt32() {
+	tag := c01Tag()
+	n := c01LongN(5)
+	vs := make([]int32, n)
+	for i := range vs {
+		vs[i] = nondetI32N("v", i)
+		if i%2 == 0 { // zig-zag value >= 2^28: five bytes
+			verifAssume(vs[i] >= 1<<27)
+		} else {
+			verifAssume(vs[i] < -(1 << 27))
+		}
+		verifAssume(verifConcretize(SizeOfZigZag(uint64(vs[i]))) == 5)
+	}
+	buf := c01PackedBuf(tag, n, 5*n)
+	NewEncoder(buf).EncodePackedSInt32(tag, vs)
+	d := c01Decoder(buf)
+	c01PackedKey(d, tag, n)
+	got, err := d.DecodePackedSint32()
+	verifAssert3(err == nil, len(got) == n, d.Offset() == len(buf), "count and cursor")
+	for i := 0; i < n && i < len(got); i++ {
+		verifAssert(got[i] == vs[i], "element")
+	}
+	verifReach("end")
+}
+
+func H_C01_PackedLong_SInt64() {
+	tag := c01Tag()
+	n := c01LongN(10)
+	vs := make([]int64, n)
+	for i := range vs {
+		vs[i] = nondetI64N("v", i)
+		if i%2 == 0 { // zig-zag value >= 2^63: ten bytes
+			verifAssume(vs[i] >= 1<<62)
+		} else {
+			verifAssume(vs[i] < -(1 << 62))
+		}
+		verifAssume(verifConcretize(SizeOfZigZag(uint64(vs[i]))) == 10)
+	}
+	buf := c01PackedBuf(tag, n, 10*n)
+	NewEncoder(buf).EncodePackedSInt64(tag, vs)
+	d := c01Decoder(buf)
+	c01PackedKey(d, tag, n)
+	got, err := d.DecodePackedSint64()
+	verifAssert3(err == nil, len(got) == n, d.Offset() == len(buf), "count and cursor")
+	for i := 0; i < n && i < len(got); i++ {
+		verifAssert(got[i] == vs[i], "element")
+	}
+	verifReach("end")
+}
